@@ -12,8 +12,8 @@ def gen(ctx):
 
 def run(ctx, proofs):
     r = propeng.run(ctx, proofs, [("-", "-"), ("-", "2")], check_vals=False, check_degs=True,
-                    n_quick=700, n_thorough=12000, props=("C07", "C20"))
-    propeng.verdict(ctx, proofs, r, kinds=("degree",), known_classes=(),
+                    n_quick=700, n_thorough=12000, props=("C07", "C20"), check_advice=True)
+    propeng.verdict(ctx, proofs, r, kinds=("degree", "advice"), known_classes=("cs0013-sum-of-products",),
                     extra_cov={"open_statements": [
                         "WHAT THE GRAPH-LEVEL THEOREM IS ABOUT: the lock-step family semantics Spec.DegSem (one statement fires for all valuations, no program counter; "
                         "`pick_ok`: only a denotable, varying condition named by `decides` lets the phi choice depend on the valuation - an assumption of the relation). "
@@ -25,12 +25,17 @@ def run(ctx, proofs):
                         "PROVED under a family assumption (proof round 4, C07_loops_runs_represented / C07_loops_runs_claims_true): diverging runs in graphs WITH loops whose ascending "
                         "segments start at the same blocks (same header entries, different arms inside) are represented on the cells that are still current at the end of the runs; "
                         "decidable graph hypotheses SsaCheck.infos_ok, DegGraph.graph_consistent, DegLoops.loops_ok (evaluated per graph by this check, conjunct by conjunct, through the `deggraph` command "
-                        "of the ir driver: dominator_table_hypotheses.graphs_covered_by_loops_theorem; an unmet one is a violation naming it - except update_bases_fresh, which as defined "
-                        "fails on every graph that updates one array element-wise twice: those graphs are counted as OUTSIDE the theorem, about 6 % of the explored graphs). OPEN: deriving the assumption `picks_decided_sched` from the graph as the loop-free theorem does "
-                        "(Proofs.DegRunLoops.C07_loops_picks_decided_full_statement); claims on mid-block expressions whose operands are re-assigned later in the same block.",
+                        "of the ir driver; an unmet one is a violation naming it). The count dominator_table_hypotheses.graphs_meeting_the_graph_hypotheses_of_the_loops_theorem says ONLY that these graph-side hypotheses are met: "
+                        "the family assumption `picks_decided_sched` is evaluated on NO case, so it is not coverage by the theorem. "
+                        "OPEN: deriving `picks_decided_sched` from the graph as the loop-free theorem does - FALSE without a side condition for a shape real lifting produces (fourth audit: a header with two "
+                        "back edges merging three variables, the parting condition reading one merged by an earlier phi than another); restated with the side condition "
+                        "Proofs.DegRunLoops.deciders_avoid_earlier_phis in C07_loops_picks_decided_full_statement; the reviewer's two-variable witness satisfies every hypothesis now "
+                        "(C07_header_two_back_edges_example). Also open: claims on mid-block expressions whose operands are re-assigned later in the same block.",
+                        "NO PROGRESS THEOREM: every run theorem assumes that all valuations of the family have completing runs and concludes only about expressions that have a value in every run's "
+                        "final store (sub-family reading: a claim inside a branch is covered through the families that all take the branch).",
                         "OPEN signal-dependent trip counts: outside the lock-step relation (no store represents the family; full statement "
                         "Proofs.DegRunLoops.C07_valuation_dependent_trip_counts_full_statement). PROVED part (C07_varying_decider_phi_no_low_claim): a phi of a join with a deciding condition "
-                        "that varies with the valuation gets no claim or upper end NonQuadratic; that everything computed from it inherits this for the concrete runs is not proved. The oracle judges such programs per iteration context: inside such a loop a claim is compared on the runs that are in the "
+                        "that varies with the valuation gets no claim or upper end NonQuadratic (a fact about the lock-step relation; nothing ties a concrete run to such a store); what speaks for the real tool there is the validator + the oracle ONLY. The oracle judges such programs per iteration context: inside such a loop a claim is compared on the runs that are in the "
                         "same iteration (degree_oracle.claims_judged_on_signal_dependent_paths; contexts reached by fewer than d + 2 of the five runs are not judged: "
                         "degree_oracle.discarded_signal_dependent_paths); behind the loop all five runs are compared again.",
                         "OPEN the lifted-skeleton edge hypothesis for the REAL graph: C07_chain_split_is_named_by_decides composes the mirrors (lifting, SSA, propagation); that "
